@@ -43,6 +43,28 @@ Theorem C01_match_complete : forall O p caps,
 Proof. exact match_complete. Qed.
 Print Assumptions C01_match_complete.
 
+(* greedy placeholder splitting: among all decompositions of the path the one returned
+   is the longest-first one (lexicographic in the capture lengths, pattern order) *)
+Theorem C01_match_greedy : forall O p s caps caps',
+  mi (kend the_anchor the_dotall (star p)) O (items p) s = Some caps ->
+  s = render (items p) caps' -> caps_ok O (star p) (items p) caps' = true -> lex_ge caps caps'.
+Proof. exact match_greedy. Qed.
+Print Assumptions C01_match_greedy.
+
+(* whatever the anchor and the remainder group are ('$' and '.*?' in the unrepaired
+   source): on newline-free paths the matcher is the strict one.  The full statement
+   C01_match_whole is refuted for '$' by Example match_whole_refuted (Proofs/C01.v). *)
+Theorem C01_match_whole_partial : forall a b O p s,
+  ~ In c_nl s -> match_pat_with a b O p s = match_pat_with EndZ true O p s.
+Proof. exact match_whole_partial. Qed.
+Print Assumptions C01_match_whole_partial.
+
+(* the default placeholder regex of the current source means: one non-empty run without '/' *)
+Theorem C01_default_hole_one_segment : forall O v,
+  (exists h, parse_reg default_hole_regex = Some h /\ hole_ok O h v = true) <-> v <> [] /\ ~ In 47%N v.
+Proof. exact default_hole_one_segment. Qed.
+Print Assumptions C01_default_hole_one_segment.
+
 (* keys = placeholder names in order (+ remainder name); values = the captured text,
    the remainder as normalised segments *)
 Theorem C01_matchdict_exact : forall O st its caps,
@@ -92,3 +114,33 @@ Theorem C01_valid_path_dispatched : forall O m method raw t,
   end.
 Proof. exact valid_path_dispatched. Qed.
 Print Assumptions C01_valid_path_dispatched.
+
+(* a literal piece of a pattern matches only itself *)
+Theorem C01_lit_is_literal : forall O l s, match_pat O (mkPat [Lit l] None) s = Some [] <-> s = l.
+Proof. exact lit_is_literal. Qed.
+Print Assumptions C01_lit_is_literal.
+
+(* RoutesMapper.connect folded over declarations that all compile: every connect succeeds and
+   routelist is "the last declaration of each name, at its (later) place, static ones left out" *)
+Theorem C01_connect_last_wins : forall O ds m sts,
+  Forall (parses O) ds -> connect_all O empty_mapper 0 ds = (m, sts) ->
+  Forall (fun s => s = Ok tt) sts
+  /\ routelist m = map (mkr O) (filter nonstatic (last_wins (number 0 ds))).
+Proof. exact connect_last_wins. Qed.
+Print Assumptions C01_connect_last_wins.
+
+(* end to end: declarations (all compiling) + raw PATH_INFO: the mapper's answer is the one
+   the declarative specification gives (first qualifying route in declaration order with
+   last-wins names, none, or decode error) *)
+Theorem C01_request_spec : forall O ds method raw m sts,
+  all_ok O ds = true -> connect_all O empty_mapper 0 ds = (m, sts) ->
+  Forall (fun s => s = Ok tt) sts
+  /\ spec_request O ds method raw =
+     match fst (dispatch_request O m method raw) with
+     | ODecodeError => SDecodeError
+     | OMatch r d => SMatch r d
+     | ONone => SNone
+     | OConfigError => SNothing
+     end.
+Proof. exact request_spec. Qed.
+Print Assumptions C01_request_spec.
